@@ -14,9 +14,23 @@ import (
 func main() {
 	for _, a := range os.Args[1:] {
 		if a == "--child-worker" {
+			if os.Getenv("VERIF_REAL_WORKER") == "1" {
+				pm.RealWorker()
+				return
+			}
 			pm.FakeWorker()
 			return
 		}
+	}
+	if len(os.Args) >= 3 && os.Args[1] == "real" {
+		var rp pm.RealParams
+		if err := json.Unmarshal([]byte(os.Args[2]), &rp); err != nil {
+			fmt.Println(`{"harness_error":"bad params"}`)
+			os.Exit(2)
+		}
+		b, _ := json.Marshal(pm.RealMaster(rp))
+		fmt.Println(string(b))
+		return
 	}
 	if len(os.Args) < 2 {
 		fmt.Println(`{"harness_error":"usage: pmexec <json params>"}`)
